@@ -2,6 +2,7 @@
 bound to the code in the same way (ids X...; not in MANIFEST.checks, evidence under evidence/ext/)."""
 import os
 import json
+import shutil
 from core import *
 from p_dec import validate_dec_trace, split_file
 
@@ -88,4 +89,73 @@ def check_XMATCH(tier):
                 break
         else:
             raise ToolError("no record with two avalanches in one bin: the driver is too weak")
+    return res.finish()
+
+
+def seq_descriptor(rec, clause):
+    return {"family": rec.get("fam"), "clause": clause, "kind": rec.get("kind"), "verdict": rec.get("verdict")}
+
+
+def check_XSEQ(tier):
+    """alpha-g-sequencer and alpha-g-odb (SeqCsv.tla)."""
+    res = Result("XSEQ", tier, "model_checking")
+    res.rule = ("E1 (MC_SeqCsv): every bank payload of <= 4 (5) bytes over {'<' , '\"' CR LF space NUL a, a two-byte UTF-8 "
+                "character, a stray continuation byte, NBSP} x {one bank, none, two, wrong name} x 13 serial/timestamp values: "
+                "a row exists iff one SEQ2 bank of UTF-8 text ending in NUL with a '<'; header ++ white space ++ xml = text; an "
+                "RFC 4180 reader recovers the four fields from the encoded row; decimal encoding of 32-bit numbers. E2: every "
+                "97th (thorough: every 7th) cell as a one-event MIDAS file through the real alpha-g-sequencer. E3 "
+                "(Trace_SeqCsv): Fails/Body recomputed from the file contents for the replays and for seeded runs of 1-3 "
+                ".mid/.mid.lz4 files in several argument orders (events of other ids, texts from atoms with quotes, commas, "
+                "CR/LF, Unicode white space, NULs, 4-byte characters, 10 kB XML; faults: foreign run, duplicate initial "
+                "timestamp, gap, two / no / misnamed bank, no NUL, invalid UTF-8 of seven kinds, no '<'): exit status, CSV "
+                "existence, comment lines and every byte of the CSV; alpha-g-odb: initial and final dump verbatim, refused "
+                "iff not UTF-8")
+    res.assumptions = ["SeqCsv.tla is the reference; the harness's MIDAS writer (accepted by midasio)",
+                       "timestamps below 2^31 in the gap rule's drivers"]
+    ml = 4 if tier == "quick" else 5
+    cfg = write_cfg("MC_SeqCsv_%d" % ml, constants={"MaxLen": ml}, invariants=["SplitOk", "FailIff", "RoundTrip", "DecOk"])
+    res.add_mc(tlc_model_check("MC_SeqCsv", cfg, "mc_seqcsv_%d" % ml, expect_actions=["Pick"], workers=8, timeout=3000))
+    cfg = write_cfg("MC_SeqCsv_exp", constants={"MaxLen": 3}, invariants=["Export"])
+    r = run_tlc("MC_SeqCsv", cfg, "mc_seqcsv_exp", workers=8, coverage=False)
+    if r["error"]:
+        raise ToolError("export failed: " + r["error"])
+    beh = os.path.join(BUILD, "traces", "seq_beh.ndjson")
+    res.extra["model_cells_exported"] = extract_replay_to_file(r, beh)
+    bins = build_bins()
+    work = os.path.join(BUILD, "work_XSEQ")
+    trace = os.path.join(BUILD, "traces", "XSEQ_trace.ndjson")
+    stride, n, nodb = (97, 150, 40) if tier == "quick" else (7, 2500, 400)
+    res.evaluations += run_vh(["seqrun", "--bindir", bins, "--work", work, "--in", beh, "--stride", str(stride), "--n", str(n),
+                               "--nodb", str(nodb), "--seed", str(seed())], trace, timeout=7200)
+    shutil.rmtree(work, ignore_errors=True)
+    for k, part in enumerate(split_file(trace, 1500)):
+        validate_dec_trace(res, part, "XSEQ_%d" % k, module="Trace_SeqCsv", descriptor=seq_descriptor)
+    kinds = {}
+    nruns = 0
+    with open(trace) as f:
+        for line in f:
+            rec = json.loads(line)
+            ok = all(x.get("exit") == 0 for x in rec.get("runs", []))
+            key = "%s/%s/%s" % (rec.get("fam"), rec.get("kind"), "written" if ok else "refused")
+            kinds[key] = kinds.get(key, 0) + 1
+            nruns += len(rec.get("runs", []))
+    res.distinct = len(kinds)
+    res.extra["records_by_kind"] = kinds
+    res.extra["program_runs"] = nruns
+    # binding self-test: change one byte of a written CSV in a passing record
+    with open(trace) as f:
+        for line in f:
+            rec = json.loads(line)
+            if rec.get("fam") == "seqrun" and rec["runs"] and rec["runs"][0]["exit"] == 0 and len(rec["runs"][0]["body"]) > 50:
+                rec["runs"][0]["body"][-2] ^= 1
+                p2 = trace + ".selftest"
+                open(p2, "w").write(json.dumps(rec) + "\n")
+                _, mism, _ = tlc_validate("Trace_SeqCsv", p2, "XSEQ_self")
+                okk = any(m[0] == rec["i"] for m in mism)
+                res.extra["binding_selftest"] = {"corrupted_record": rec["i"], "rejected": okk, "how": "flipped one bit of the CSV"}
+                if not okk:
+                    raise ToolError("binding self-test failed")
+                break
+        else:
+            raise ToolError("no written CSV in the trace: the driver is too weak")
     return res.finish()
